@@ -77,7 +77,8 @@ def Ev.early : Ev → Bool
 
 /-- Layer 1: the status word, the counters of claim/enter/exit/close, the `running` and `ld` locals. -/
 structure InvJ (s : State) : Prop where
-  nex : ∀ j, (s.jobs j).exist = false → (s.jobs j).claims = 0 ∧ (s.jobs j).closes = 0
+  nex : ∀ j, (s.jobs j).exist = false →
+    (s.jobs j).claims = 0 ∧ (s.jobs j).closes = 0 ∧ (s.jobs j).st = created
   st_le : ∀ j, (s.jobs j).st ≤ closed
   head : ∀ j, (s.jobs j).hist.head? = some (s.jobs j).st
   claims_le : ∀ j, (s.jobs j).claims ≤ 1
